@@ -24,6 +24,51 @@ sym_mods = common.sym_mods
 real_mods = common.real_mods
 
 
+def h_aux_basis_order(env):
+    """aug_etb_for_cider (ciderpress/pyscf/nldf_convolutions.py) builds the auxiliary basis of the NLDF expansion element by element
+    from the exponent range of that element's orbital basis; what it asks get_etb_from_expnt_range for an element must not depend on
+    the order in which the atoms (hence the elements) are listed.  Stand-in molecule with two elements, symbolic primitive exponents
+    (an s and a p shell on O, an s shell on H); get_etb_from_expnt_range is a recorder and gto.expand_etbs the identity, so the
+    comparison is on the per-element exponent ranges and default bounds themselves."""
+    import types
+    nc = env.m.nldf_convolutions
+    eO = env.arr("expO", (3,), "pos", lo="1/8", hi="64")
+    eH = env.arr("expH", (2,), "pos", lo="1/8", hi="64")
+    env.eps_zero()
+    obj = (lambda rows: np.array(rows, dtype=object)) if env.sym else (lambda rows: np.array(rows, dtype=float))
+    basis = {"O": [[0, [eO[0], 1.0], [eO[1], 1.0]], [1, [eO[2], 1.0]]], "H": [[0, [eH[0], 1.0]], [0, [eH[1], 1.0]]]}
+
+    def run(order):
+        mol = types.SimpleNamespace(_atom=[(sy, [0.0, 0.0, float(i)]) for i, sy in enumerate(order)], _basis=basis)
+        rec = []
+
+        def recorder(lmax, beta, emin_by_l, emax_by_l, def_amax, def_amin, lower_fac=1.0, upper_fac=1.0):
+            rec.append((list(emin_by_l), list(emax_by_l), def_amax, def_amin))
+            return len(rec) - 1
+        old = nc.get_etb_from_expnt_range, nc.gto
+        nc.get_etb_from_expnt_range = recorder
+        nc.gto = types.SimpleNamespace(charge=old[1].charge, expand_etbs=lambda etb: etb)
+        try:
+            nb = nc.aug_etb_for_cider(mol, lmax=1)
+        finally:
+            nc.get_etb_from_expnt_range, nc.gto = old
+        return {sy: rec[k] for sy, k in nb.items()}
+    ok, ref = env.attempt("returns", lambda: run(("O", "H", "H")))
+    if not ok:
+        return
+    for order in (("H", "O", "H"), ("H", "H", "O")):
+        got = run(order)
+        tag = "".join(order)
+        env.check("same_elements_%s" % tag, set(got) == set(ref), "%s vs %s" % (sorted(got), sorted(ref)))
+        for sy in ref:
+            if sy not in got:
+                continue
+            for l in range(2):
+                env.equal("%s_emin_l%d_of_%s" % (tag, l, sy), got[sy][0][l] + env.const(0), ref[sy][0][l] + env.const(0))
+                env.equal("%s_emax_l%d_of_%s" % (tag, l, sy), got[sy][1][l] + env.const(0), ref[sy][1][l] + env.const(0))
+            env.equal("%s_default_bounds_of_%s" % (tag, sy), got[sy][2] + got[sy][3] * 16, ref[sy][2] + ref[sy][3] * 16)
+
+
 def h_sdmx_alpha0(env, natm=3):
     """EXXSphGenerator.from_settings_and_mol (ciderpress/pyscf/sdmx.py) derives the default smallest SDMX exponent from the molecular
     extent; it must not depend on the order in which the atoms are listed (nor on a rigid shift).  Symbolic run: a stand-in molecule
@@ -419,6 +464,7 @@ def tasks(tier):
     for atoms, perm, shells in relab:
         out.append(Task("relabel_indexer/%s/%s" % ("".join(atoms), "".join(map(str, perm))), h_relabel_indexer, dict(atoms=atoms, perm=perm, shells=shells), mods="grids"))
     out.append(Task("generator_cache", c_generator_cache, dict(task="generator_cache"), engine="custom"))
+    out.append(Task("aux_basis/element_order", h_aux_basis_order, {}, mods="numint", max_paths=512, timeout_ms=60000))
     out.append(Task("sdmx_default_exponent/3atoms", h_sdmx_alpha0, {}, mods="numint", max_paths=512, timeout_ms=60000))
     if tier == "thorough":
         out.append(Task("shell_norm/lmax3", h_shell_norm, dict(lmax=3)))
@@ -431,6 +477,7 @@ def prepare(tier):
     m.settings, m.plans
     _signed_perm(1)
     sym_mods("grids").grids_indexer
+    sym_mods("numint").nldf_convolutions
 
 
 def extra_evidence(results):
@@ -441,7 +488,7 @@ def extra_evidence(results):
 META = dict(
     explanation="clang LLVM IR of sph_harm.c executed on a symbolic unit vector; z3 decides polynomial identities on the sphere (exact where both sides use "
                 "the same constants, within 1e-12 where the C source's decimal constants meet pi); plan-level l=1 contraction under a symbolic orthogonal matrix",
-    functions=['ciderpress/pyscf/sdmx.py: EXXSphGenerator.from_settings_and_mol (sdmx_default_exponent/*)', 'ciderpress/pyscf/numint.py: CiderNumIntMixin / NLDFNumInt / NLDFNLOFNumInt.initialize_feature_generators (generator_cache: concrete fact task, no solver query)', "ciderpress/lib/mod_cider/sph_harm.c: setup_sph_harm_buffer, recursive_sph_harm, recursive_sph_harm_deriv, remove_radial_grad, recursive_sph_harm(_deriv)_vec",
+    functions=['ciderpress/pyscf/nldf_convolutions.py: aug_etb_for_cider (aux_basis/element_order)', 'ciderpress/pyscf/sdmx.py: EXXSphGenerator.from_settings_and_mol (sdmx_default_exponent/*)', 'ciderpress/pyscf/numint.py: CiderNumIntMixin / NLDFNumInt / NLDFNLOFNumInt.initialize_feature_generators (generator_cache: concrete fact task, no solver query)', "ciderpress/lib/mod_cider/sph_harm.c: setup_sph_harm_buffer, recursive_sph_harm, recursive_sph_harm_deriv, remove_radial_grad, recursive_sph_harm(_deriv)_vec",
                "ciderpress/dft/plans.py: NLDFAuxiliaryPlan.eval_rho_full/eval_rho_vi_", "ciderpress/dft/grids_indexer.py: AtomicGridsIndexer.from_tabs/__init__"],
     bounds=dict(lmax="2 (3 thorough)", points=1, octahedral_operations="8 of 48 (quick), all 48 (thorough)", tolerance="1e-12 for identities involving pi vs the source's double constants"),
     stubs=["complex arithmetic: clang's expanded real/imag form; creal/cimag/__muldc3 by definition; calloc'd buffers zero-initialised"],
